@@ -21,6 +21,8 @@ type hcfg struct {
 	// an unexported field ahead of the reference-bearing one: copying must not stop here
 	hidden int8
 	P      *hsub // pointer-to-struct section (non-nil in some defaults)
+	// Derived is filled in by Verify (a normalising, pointer-receiver Verify): A+1
+	Derived int64 `dials:"-"`
 }
 
 type hsub struct {
@@ -38,6 +40,7 @@ var verifyExternalFail bool
 
 func (c *hcfg) Verify() error {
 	verifyLog = append(verifyLog, *c)
+	c.Derived = c.A + 1
 	if c.Bad || verifyExternalFail {
 		return errInvalid
 	}
